@@ -56,7 +56,7 @@ def knowledge_assignments(st, tier, ndev=0):
     opts = {}
     for b in bases:
         s, m = sorted(sure.get(b, ())), sorted(maybe.get(b, ()))
-        lean = tier == "quick" and ndev >= 2  # outer ball in quick: unknown / exact / lacking only
+        lean = ndev >= (2 if tier == "quick" else 3)  # outermost ball: unknown / exact / lacking only
         o = [("U", None), ("E", s + m + ["id"])] + ([] if lean else [("S", s + m + ["id", "zz"])])
         if m and not s:
             o.append(("L", ["zz"]))  # known, but lacking the ambiguous column
@@ -278,7 +278,7 @@ def run(tier: str, opts: dict) -> int:
                 continue
             kinds = ["dummy", "sqlalchemy"] if (ndev <= (1 if tier == "quick" else 2)) else ["dummy"]
             for kind in kinds:
-                tasks.append((st, tags, K, kind, ndev <= 1 or tier != "quick"))
+                tasks.append((st, tags, K, kind, ndev <= (1 if tier == "quick" else 2)))
     # (iv) two-scope statements x knowledge product, both provider kinds
     n_two = 0
     for label, st in two_scope_cases():
